@@ -1,6 +1,7 @@
 package sim
 
 import (
+	"encoding/json"
 	"context"
 	"fmt"
 	"net/http/httptest"
@@ -146,6 +147,11 @@ func RunBridge(t *testing.T, sc BScenario) (h *BHistory) {
 				}
 				select {
 				case o := <-gate(p.K):
+					if o == "baderr" {
+						// an *Error whose Data are not valid JSON: still an error response with that code
+						ret = "baderr"
+						return nil, &jrpc2.Error{Code: 7, Message: fmt.Sprintf("handler error %d", p.K), Data: json.RawMessage(`{"k":`)}
+					}
 					if strings.HasPrefix(o, "err:") {
 						c, _ := strconv.Atoi(o[4:])
 						ret = o
